@@ -86,6 +86,14 @@ def _F(ck, rel, qn):
     return norm_func(ck.repo, ck.func(rel, qn))
 
 
+def _header_splitter(ck):
+    """the function that cuts the header block into start line and header text: _parse_headers, or _read_message when a
+    refactoring inlined it there"""
+    if ck.repo.has_func(H1, "HTTP1Connection._parse_headers"):
+        return _F(ck, H1, "HTTP1Connection._parse_headers")
+    return _F(ck, H1, "HTTP1Connection._read_message")
+
+
 def _is_input_error(cls):
     return cls is not None and cls.split(".")[-1] == "HTTPInputError"
 
@@ -188,6 +196,8 @@ def read_tree(ck):
     need = ["_read_message", "_parse_headers", "_read_body", "_read_fixed_body", "_read_chunked_body", "is_transfer_encoding_chunked",
             "parse_int", "parse_hex_int", "parse_request_start_line", "split_host_and_port", "__init__", "parse_line", "add", "_can_keep_alive"]
     names = {f.name for f in tree.values()}
+    if not repo.has_func(H1, "HTTP1Connection._parse_headers"):
+        need = [n for n in need if n != "_parse_headers"]  # inlined into _read_message: its statements are analysed there
     missing = [n for n in need if n not in names]
     if missing:
         raise AnalysisError("read call tree lost %s (call resolution drifted)" % ", ".join(missing))
@@ -517,7 +527,7 @@ def check_header_fields(ck, env, RP="C01"):
                 kv = q.kwarg(c, tfl)
                 ck.ob(R, f, c, kv is None or (isinstance(kv, ast.Name) and kv.id == fl) or q.is_const(kv, True), "%s forwards the validation mode to %s" % (f.qualname, callee))
     ck.floor(R, n, 2, "parse_line/add forwarding calls")
-    ph = _F(ck, H1, "HTTP1Connection._parse_headers")
+    ph = _header_splitter(ck)
     pc = [c for c in q.calls(ph.node) if resolve_call(ck.repo, ph, c) is parse]
     ck.floor(R, len(pc), 1, "HTTPHeaders.parse calls in _parse_headers")
     pfl, _d = _flag_param(parse)
@@ -1568,7 +1578,7 @@ def check_wire_exact(ck, tree, RP="C01"):
 
     # (parse_line's own trimming is decided by folding it on concrete lines: check_parse_line_folded)
     pl = _F(ck, HU, "HTTPHeaders.parse_line")
-    ph = _F(ck, H1, "HTTP1Connection._parse_headers")
+    ph = _header_splitter(ck)
     crlf_strip = lambda c: c.func.attr in ("lstrip", "rstrip", "strip") and len(c.args) == 1 and not c.keywords and isinstance(c.args[0], ast.Constant) and isinstance(c.args[0].value, str) and c.args[0].value != "" and set(c.args[0].value) <= {"\r", "\n"}
     k = 0
     for c in q.calls(ph.node):
